@@ -20,7 +20,7 @@ import (
 type Opt struct {
 	CF, RN, FE, RO bool // ConstantFolding, ReduceNesting, FastEvaluation, Reordering
 	Events         int  // 0 off, 1 ReportEvent, 2 Debug, 3 both
-	Undef          int  // 0 all variables registered, 1 all undefined-mode, 2 odd-numbered undefined-mode, 3 all registered but undefined variables allowed
+	Undef          int  // 0 all variables registered, 1 all undefined-mode, 2 odd-numbered undefined-mode, 3 all registered but undefined variables allowed, 4 all registered and the first same-typed pair of variables shares ONE key (two names for one slot)
 	Directive      int  // 0 programmatic options; 1.. in-source directive renderings
 	Infix          bool
 	Costs          map[string]float64
@@ -252,7 +252,7 @@ func (h *Harness) NewConfig(vars []term.VarDecl, o Opt) *eval.Config {
 	}
 	for i, v := range vars {
 		switch o.Undef {
-		case 0, 3:
+		case 0, 3, 4:
 			cfg.VariableKeyMap[v.Name] = KeyOf(i)
 		case 1:
 		case 2:
@@ -261,7 +261,12 @@ func (h *Harness) NewConfig(vars []term.VarDecl, o Opt) *eval.Config {
 			}
 		}
 	}
-	if o.Undef != 0 {
+	if o.Undef == 4 {
+		if i, j := AliasPair(vars); j > 0 {
+			cfg.VariableKeyMap[vars[j].Name] = KeyOf(i)
+		}
+	}
+	if o.Undef != 0 && o.Undef != 4 {
 		cfg.CompileOptions[eval.AllowUndefinedVariable] = true
 	}
 	if o.Directive == 0 {
@@ -372,6 +377,18 @@ type Fetcher struct {
 	Nth map[int]int
 }
 
+// AliasPair returns the first pair i < j of same-typed variables (j == 0: none).
+func AliasPair(vars []term.VarDecl) (int, int) {
+	for i := range vars {
+		for j := i + 1; j < len(vars); j++ {
+			if vars[i].Ty == vars[j].Ty {
+				return i, j
+			}
+		}
+	}
+	return 0, 0
+}
+
 func NewFetcher(h *Harness, vars []term.VarDecl, o Opt) *Fetcher {
 	f := &Fetcher{H: h, Idx: map[string]int{}, Keys: make([]eval.VariableKey, len(vars)), Vals: make([]interface{}, len(vars))}
 	for i, v := range vars {
@@ -379,6 +396,11 @@ func NewFetcher(h *Harness, vars []term.VarDecl, o Opt) *Fetcher {
 		f.Keys[i] = KeyOf(i)
 		if o.Undef == 1 || (o.Undef == 2 && i%2 == 1) {
 			f.Keys[i] = eval.UndefinedVarKey
+		}
+	}
+	if o.Undef == 4 {
+		if i, j := AliasPair(vars); j > 0 {
+			f.Keys[j] = KeyOf(i)
 		}
 	}
 	return f
